@@ -38,6 +38,7 @@ type memConn struct {
 	writeGate     chan struct{} // when non-nil, Write blocks until it is closed (stall)
 	inWrite       int           // writers currently parked at the gate
 	afterWrites   int           // bytes accepted after Close frame detection (diagnostics)
+	onWrite       func(p []byte) // observer called at the start of every Write, outside the lock
 }
 
 type faultKind int
@@ -144,6 +145,12 @@ func (c *memConn) Read(p []byte) (int, error) {
 }
 
 func (c *memConn) Write(p []byte) (int, error) {
+	c.mu.Lock()
+	obs := c.onWrite
+	c.mu.Unlock()
+	if obs != nil {
+		obs(p)
+	}
 	c.mu.Lock()
 	c.writeAttempts++
 	if c.closed {
@@ -358,6 +365,14 @@ func (c *memConn) WaitStalled(n int, d time.Duration) bool {
 }
 
 // WriteAttempts: how many times Write has been called on this end, whatever the outcome
+// SetOnWrite installs an observer that runs at the start of every transport write, i.e. while the
+// write call that caused it is still in flight.
+func (c *memConn) SetOnWrite(f func(p []byte)) {
+	c.mu.Lock()
+	c.onWrite = f
+	c.mu.Unlock()
+}
+
 func (c *memConn) WriteAttempts() int {
 	c.mu.Lock()
 	defer c.mu.Unlock()
